@@ -358,7 +358,7 @@ func init() {
 			{Name: "op-pairs", Quick: n * n, Thorough: n * n, Exhaustive: true, Run: runOpPairs},
 			{Name: "op-triples", Quick: n * n * n, Thorough: n * n * n, Exhaustive: true, Run: runOpTriples},
 			{Name: "stmt-matrix", Quick: nf * nf, Thorough: nf * nf, Exhaustive: true, Run: runStmtMatrix},
-			{Name: "random", Quick: 12000, Thorough: 120000, Run: runC02Random},
+			{Name: "random", Quick: 30000, Thorough: 200000, Run: runC02Random},
 		},
 	})
 }
